@@ -275,18 +275,12 @@ pub fn global_parse_int(
         None => interp.intern(""),
     };
     let string = string.as_str().to_string();
-    let radix = args.get(1).map(|v| v.to_number() as i32).unwrap_or(10);
+    let radix = args.get(1).map(|v| crate::value::to_int32(v.to_number())).unwrap_or(0);
 
     // Trim whitespace
     let s = string.trim();
 
     if s.is_empty() {
-        return Ok(Guarded::unguarded(JsValue::Number(f64::NAN)));
-    }
-
-    // Handle radix
-    let radix = if radix == 0 { 10 } else { radix };
-    if !(2..=36).contains(&radix) {
         return Ok(Guarded::unguarded(JsValue::Number(f64::NAN)));
     }
 
@@ -299,26 +293,34 @@ pub fn global_parse_int(
         (false, s)
     };
 
-    // Handle hex prefix for radix 16
-    let s = if radix == 16 {
-        s.strip_prefix("0x")
-            .or_else(|| s.strip_prefix("0X"))
-            .unwrap_or(s)
+    // Handle radix: 0 (or none given) means 10, or 16 when the digits carry a 0x prefix
+    let hex_prefixed = s.starts_with("0x") || s.starts_with("0X");
+    let radix = if radix == 0 {
+        if hex_prefixed { 16 } else { 10 }
+    } else {
+        radix
+    };
+    if !(2..=36).contains(&radix) {
+        return Ok(Guarded::unguarded(JsValue::Number(f64::NAN)));
+    }
+    let s = if radix == 16 && hex_prefixed {
+        s.get(2..).unwrap_or("")
     } else {
         s
     };
 
-    // Parse digits until invalid character
-    let mut result: i64 = 0;
+    // Parse digits until invalid character; the value is accumulated as a double
+    // (digit strings longer than an i64 can hold are ordinary input)
+    let mut result: f64 = 0.0;
     let mut found_digit = false;
 
     for c in s.chars() {
         let digit = match c.to_digit(radix as u32) {
-            Some(d) => d as i64,
+            Some(d) => d as f64,
             None => break,
         };
         found_digit = true;
-        result = result * (radix as i64) + digit;
+        result = result * (radix as f64) + digit;
     }
 
     if !found_digit {
@@ -326,7 +328,7 @@ pub fn global_parse_int(
     }
 
     let result = if negative { -result } else { result };
-    Ok(Guarded::unguarded(JsValue::Number(result as f64)))
+    Ok(Guarded::unguarded(JsValue::Number(result)))
 }
 
 pub fn global_parse_float(
@@ -343,6 +345,13 @@ pub fn global_parse_float(
 
     if s.is_empty() {
         return Ok(Guarded::unguarded(JsValue::Number(f64::NAN)));
+    }
+
+    // Infinity, with an optional sign
+    let unsigned = s.strip_prefix('-').or_else(|| s.strip_prefix('+')).unwrap_or(s);
+    if unsigned.starts_with("Infinity") {
+        let inf = if s.starts_with('-') { f64::NEG_INFINITY } else { f64::INFINITY };
+        return Ok(Guarded::unguarded(JsValue::Number(inf)));
     }
 
     // Find the longest valid float prefix
@@ -384,10 +393,14 @@ pub fn global_parse_float(
             _ => break,
         }
     }
-    match num_str.parse::<f64>() {
-        Ok(n) => Ok(Guarded::unguarded(JsValue::Number(n))),
-        Err(_) => Ok(Guarded::unguarded(JsValue::Number(f64::NAN))),
+    // The longest prefix that is a number: "12e" is 12, "1e+" is 1
+    while !num_str.is_empty() {
+        if let Ok(n) = num_str.parse::<f64>() {
+            return Ok(Guarded::unguarded(JsValue::Number(n)));
+        }
+        num_str.pop();
     }
+    Ok(Guarded::unguarded(JsValue::Number(f64::NAN)))
 }
 
 // Global isNaN - converts argument to number first
